@@ -138,6 +138,10 @@ func zeroResults(sig *types.Signature) value {
 				return cell
 			}
 		}
+		if fsig, ok := t.Underlying().(*types.Signature); ok {
+			// a stubbed function returning a function: hand out a callable stub
+			return nativeFunc{name: "stub", fn: func(fr *frame, args []value) value { return zeroResults(fsig) }}
+		}
 		return zero(t)
 	}
 	switch sig.Results().Len() {
